@@ -240,6 +240,66 @@ def size_cap(n: int, c: int, titan: bool) -> bool:
     return V(body.same_as(mk(Fill(n))))
 
 
+def full_client(kind: int, n: int, at: int, entry: int) -> bool:
+    """
+    pre: 0 <= kind <= 2 and 0 <= n <= 2000 and 0 <= at <= n + 20 and 0 <= entry <= 2
+    post: _
+    """
+    # the whole GeminiClient call (get / upload / delete) on the virtual-time loop: the server stops after
+    # `at` bytes and then closes (0), resets (1) or stays silent (2)
+    from vf.clientrun import Env
+    env = Env(False)
+    c = env.client
+    c.timeout = 9
+    loop = env.loop
+    if entry == 0:
+        coro = c.get("gemini://a.example/x", follow_redirects=False)
+    elif entry == 1:
+        coro = c.upload("gemini://a.example/up", b"DATA")
+    else:
+        coro = c.delete("gemini://a.example/up")
+    task = loop.create_task(coro)
+    task.run()
+    if task.done() or len(env.conns) != 1:
+        return V(False)
+    t = env.conns[0]
+    head = b"20 application/octet-stream\r\n"
+    stream = mk(head, Fill(n))
+    if at > len(stream):
+        at = len(stream)
+    part, _ = stream.cut(at)
+    if part:
+        t.proto.data_received(part)
+    if kind == 0:
+        t.proto.connection_lost(None)
+    elif kind == 1:
+        t.proto.connection_lost(ConnectionResetError("reset"))
+    task.run()
+    if kind <= 1:
+        # the peer is gone: the call ends now, without waiting for the timeout
+        if not task.done() or loop.now != 0:
+            return V(False)
+        exc = task.exception()
+        if kind == 0 and at >= len(head):
+            if exc is not None:
+                return V(False)
+            body = task.result().body
+            if not isinstance(body, SymBuf):
+                body = SymBuf([body])
+            return V(task.result().status == 20 and body.same_as(mk(Fill(at - len(head)))) and t.closed >= 1)
+        return V(exc is not None and t.closed >= 1)
+    # silent server: still waiting just before the timeout, cut off at the timeout
+    if task.done():
+        return V(False)
+    loop.advance(8)
+    task.run()
+    if task.done():
+        return V(False)
+    loop.advance(9)
+    task.run()
+    return V(task.done() and isinstance(task.exception(), TimeoutError) and t.closed >= 1)
+
+
 CAP = MAX_RESPONSE_BODY_SIZE
 NB = pick(1, 2)
 
@@ -286,6 +346,10 @@ OBLIGATIONS = [
        symbolic="1-character charset label, any ASCII code point", functions=FN, stubs=ST),
     Ob("header_bytes", header_bytes, quick=400, thorough=1500,
        symbolic="1 (quick) / 1..2 (thorough) unconstrained bytes at 3 header positions", functions=FN, stubs=ST),
+    Ob("full_client", full_client, quick=300, thorough=900,
+       symbolic="GeminiClient.get / upload / delete on the virtual-time loop: body length 0..2000, offset at which the server stops, "
+                "then clean close / reset / silence until the timeout",
+       functions=["GeminiClient.get", "_get_single", "upload", "delete"] + FN, stubs=ST + ["MiniLoop (virtual clock)", "scripted connector"]),
     Ob("size_cap", size_cap, quick=120, thorough=600,
        symbolic="body length 0..cap+5000 (cap = 10 MiB), one cut offset", functions=FN, stubs=ST),
 ]
